@@ -36,6 +36,7 @@ MIN_REACH = {
     "matrix_readouts_judged": {"quick": 200, "thorough": 3000},
     "ill_conditioned_samples": {"quick": 100, "thorough": 2000},
     "matrix_chunks_fed_as_one_shot_iterators": {"quick": 10, "thorough": 200},
+    "matrix_chunks_mixing_lists_and_one_shot_iterators": {"quick": 10, "thorough": 200},
     "sequences_fed_as_numpy_arrays": {"quick": 60, "thorough": 500},
     "non_numbers_refused_between_feeds": {"quick": 40, "thorough": 400},
 }
@@ -275,9 +276,13 @@ def run_case(ctx, case):
                 cuts = sorted(set(crng.sample(range(1, n), min(n - 1, crng.randint(1, 3))))) if n > 1 else []
                 lo = 0
                 for hi in cuts + [n]:
-                    how = crng.choice(["it", "it", "tuple", "single", "oneshot"])
+                    how = crng.choice(["it", "it", "tuple", "single", "oneshot", "mixed"])
                     if how == "it":
                         rcm.update_from_it(*[s[lo:hi] for s in series])
+                    elif how == "mixed":
+                        # one call, some series as lists and others as one-shot iterators (a derived series computed on the fly)
+                        rcm.update_from_it(*[s[lo:hi] if (k_ + lo) % 2 else (v_ for v_ in s[lo:hi]) for k_, s in enumerate(series)])
+                        ctx.count("matrix_chunks_mixing_lists_and_one_shot_iterators")
                     elif how == "oneshot":
                         rcm.update_from_it(*[iter(s[lo:hi]) if k_ % 2 else (v_ for v_ in s[lo:hi]) for k_, s in enumerate(series)])
                         ctx.count("matrix_chunks_fed_as_one_shot_iterators")
